@@ -204,7 +204,7 @@ Returns:
   # skip evaluation of f(x) if the corresponding weight <= tol
   #weights = normalize(weights, mass=1.0) #FIXME: below is atol, should be rtol?
   from numpy import sum
-  if not sum(abs(w) > tol for w in weights):
+  if not sum([abs(w) > tol for w in weights]):
       yw = ((0.0,0.0),)
   else: #XXX: parallel map?
       yw = [(f(x),w) for (x,w) in zip(samples, weights) if abs(w) > tol]
@@ -235,7 +235,7 @@ Returns:
     return moment(y, weights, order) #XXX: tol?
   # skip evaluation of f(x) if the corresponding weight <= tol
   from numpy import sum
-  if not sum(abs(w) > tol for w in weights):
+  if not sum([abs(w) > tol for w in weights]):
       yw = ((0.0,0.0),)
   else: #XXX: parallel map?
       yw = [(f(x),w) for (x,w) in zip(samples, weights) if abs(w) > tol]
